@@ -41,79 +41,79 @@ pub fn plan_for(prop: &str, tier: &str) -> Plan {
             p.scenarios = if q {
                 sc(&[("fig8-div", 1), ("fig8", 1), ("fig8-div", 2), ("snap", 1), ("member", 1), ("crash3", 1)])
             } else {
-                sc(&[("fig8-div", 1), ("fig8", 1), ("fig8-div", 2), ("snap", 1), ("member", 1), ("crash3", 1), ("fig8-div", 3), ("snap", 2), ("member", 2), ("crash3", 2), ("fig8", 2), ("fig8-div", 4), ("fig8", 3)])
+                sc(&[("fig8-div", 1), ("fig8", 1), ("fig8-div", 2), ("snap", 1), ("member", 1), ("crash3", 1), ("fig8-div", 3), ("snap", 2), ("member", 2), ("crash3", 2), ("fig8-pv", 1), ("fig8", 2), ("fig8-div", 4), ("fig8-pv", 0), ("fig8", 3)])
             };
             p.required_stats = vec![Stat::CommitAdvances, Stat::EntriesApplied, Stat::LeadersSeen];
             p.explanation = "explicit-state exploration; ghost committed-log registry: every report of an index as committed (commit index, hand-out for apply, snapshot install) must agree with the first report, and a node's retained log below its commit index must agree with the registry after every API call".into();
         }
         "C02" => {
             p.scenarios = if q {
-                sc(&[("elect", 1), ("elect-pv", 1), ("elect-cq", 1), ("elect-pvcq", 1), ("elect", 3), ("stale", 1), ("member", 1), ("crash3", 1)])
+                sc(&[("elect", 1), ("elect-pv", 1), ("elect-cq", 1), ("elect-pvcq", 1), ("elect-stale", 0), ("stale", 1), ("member", 1), ("crash3", 1), ("xfer-abort", 0), ("elect", 3)])
             } else {
-                sc(&[("elect", 1), ("elect-pv", 1), ("elect-cq", 1), ("elect-pvcq", 1), ("elect", 3), ("stale", 1), ("member", 1), ("crash3", 1), ("elect-prio", 3), ("elect-pvcq", 3), ("xfer", 1), ("stale", 2), ("member", 2), ("elect", 2), ("elect", 4)])
+                sc(&[("elect", 1), ("elect-pv", 1), ("elect-cq", 1), ("elect-pvcq", 1), ("elect-stale", 0), ("stale", 1), ("member", 1), ("crash3", 1), ("xfer-abort", 0), ("elect", 3), ("elect-prio", 3), ("elect-pvcq", 3), ("xfer", 1), ("stale", 2), ("member", 2), ("elect", 2), ("elect", 4)])
             };
             p.required_stats = vec![Stat::LeadersSeen, Stat::VotesGranted];
             p.explanation = "explicit-state exploration; ghost leader_of[term] checked after every API call on every node, across crashes and restarts (crash cuts between receiving a vote request and persisting the vote included)".into();
         }
         "C03" => {
             p.scenarios = if q {
-                sc(&[("fig8-div", 1), ("fig8", 1), ("fig8-div", 2), ("elect-pvcq", 1), ("elect-prio", 1), ("xfer", 0)])
+                sc(&[("fig8-div", 1), ("fig8", 1), ("fig8-div", 2), ("elect-pvcq", 1), ("elect-prio", 1), ("elect-stale", 0), ("xfer", 0), ("xfer-abort", 0)])
             } else {
-                sc(&[("fig8-div", 1), ("fig8", 1), ("fig8-div", 2), ("elect-pvcq", 1), ("elect-prio", 1), ("xfer", 0), ("fig8-div", 3), ("elect-prio", 3), ("xfer", 1), ("fig8", 2), ("fig8", 3)])
+                sc(&[("fig8-div", 1), ("fig8", 1), ("fig8-div", 2), ("elect-pvcq", 1), ("elect-prio", 1), ("elect-stale", 0), ("xfer", 0), ("xfer-abort", 0), ("fig8-div", 3), ("elect-prio", 3), ("xfer-abort", 1), ("xfer", 1), ("fig8", 2), ("xfer-abort", 2), ("fig8", 3)])
             };
             p.required_stats = vec![Stat::LeadersSeen, Stat::VotesGranted, Stat::PreVotesGranted, Stat::CommitAdvances];
             p.explanation = "explicit-state exploration; (a) every leader's log checked against the registry of entries committed in earlier terms after every API call, (b) every generated vote / pre-vote grant checked against the voter's own last (term, index) in its pre-state".into();
         }
         "C04" => {
             p.scenarios = if q {
-                sc(&[("repl", 1), ("repl-i1-sz", 1), ("crash3", 1), ("crash2-async", 1), ("member-joint", 1), ("member", 1), ("fig8", 1)])
+                sc(&[("repl", 1), ("repl-i1-sz", 1), ("crash3", 1), ("crash2-async", 1), ("crash2-async-loose", 1), ("member-joint", 1), ("member", 1), ("fig8", 1)])
             } else {
-                sc(&[("repl", 1), ("repl-i1-sz", 1), ("crash3", 1), ("crash2-async", 1), ("member-joint", 1), ("member", 1), ("fig8", 1), ("repl-async", 1), ("repl-gc", 1), ("repl", 2), ("crash3-async", 1), ("member-joint", 2), ("member", 2), ("repl", 3)])
+                sc(&[("repl", 1), ("repl-i1-sz", 1), ("crash3", 1), ("crash2-async", 1), ("crash2-async-loose", 1), ("member-joint", 1), ("member", 1), ("fig8", 1), ("repl-async", 1), ("repl-gc", 1), ("repl", 2), ("crash3-async", 1), ("member-joint", 2), ("member", 2), ("crash3-async-loose", 1), ("repl", 3)])
             };
             p.required_stats = vec![Stat::CommitAdvances, Stat::Crashes];
             p.explanation = "explicit-state exploration; at every leader commit advance: entry of own term and durable (on the simulated disks, not in raft-rs bookkeeping) on a majority of each half of the leader's configuration; non-leader commit never beyond a leader's".into();
         }
         "C05" => {
             p.scenarios = if q {
-                sc(&[("fig8", 1), ("fig8-div", 2), ("repl", 1), ("repl-div", 1), ("crash3", 1), ("repl-batch", 1)])
+                sc(&[("fig8", 1), ("fig8-div", 2), ("repl", 1), ("repl-div", 1), ("repl-mix", 1), ("crash3", 1), ("repl-batch", 1)])
             } else {
-                sc(&[("fig8", 1), ("fig8-div", 2), ("repl", 1), ("repl-div", 1), ("crash3", 1), ("repl-batch", 1), ("repl-div", 2), ("fig8-div", 3), ("repl", 2), ("crash3", 2), ("fig8", 2), ("repl-batch", 2)])
+                sc(&[("fig8", 1), ("fig8-div", 2), ("repl", 1), ("repl-div", 1), ("repl-mix", 1), ("crash3", 1), ("repl-batch", 1), ("repl-div", 2), ("repl-mix", 3), ("fig8-div", 3), ("repl", 2), ("crash3", 2), ("fig8", 2), ("repl-batch", 2)])
             };
             p.required_stats = vec![Stat::Truncations, Stat::CommitAdvances];
             p.explanation = "explicit-state exploration; pairwise log matching over all live nodes (stable + unstable entries) after every API call; leader append-only and committed-prefix immutability as pre/post relations of every call".into();
         }
         "C06" => {
             p.scenarios = if q {
-                sc(&[("crash2", 1), ("crash3", 1), ("crash2-async", 1), ("stale", 1), ("crash3-lazy", 1), ("stale-lazy", 0), ("stale-async", 0)])
+                sc(&[("crash2", 1), ("crash3", 1), ("crash2-async", 1), ("crash2-async-loose", 1), ("elect-stale-nosync", 0), ("stale", 1), ("stale-lazy", 0), ("stale-async", 0), ("crash3-lazy", 1)])
             } else {
-                sc(&[("crash2", 1), ("crash3", 1), ("crash2-async", 1), ("stale", 1), ("crash3-lazy", 1), ("stale-lazy", 0), ("stale-async", 0), ("crash2", 3), ("crash3", 2), ("stale-lazy", 1), ("stale-async", 1), ("crash3-async", 1), ("elect", 2), ("crash3", 3)])
+                sc(&[("crash2", 1), ("crash3", 1), ("crash2-async", 1), ("crash2-async-loose", 1), ("elect-stale-nosync", 0), ("stale", 1), ("stale-lazy", 0), ("stale-async", 0), ("crash3-lazy", 1), ("crash2", 3), ("crash3", 2), ("stale-lazy", 1), ("stale-async", 1), ("crash3-async", 1), ("crash2-async-loose", 2), ("elect", 2), ("crash3", 3)])
             };
             p.required_stats = vec![Stat::MsgsReleased, Stat::AcksReleased, Stat::VotesGranted, Stat::Crashes, Stat::Restarts];
             p.explanation = "explicit-state exploration over every crash point of the Ready round (after ready(), after k of the writes, after fsync, after persisted sends, after advance) in sync, async and lazy application modes; every released message checked against the node's durable disk at release time; one vote per term across incarnations; term monotone".into();
         }
         "C07" => {
             p.scenarios = if q {
-                sc(&[("crash2", 1), ("crash3", 1), ("crash2-async", 1), ("crash3-lag", 1), ("crash3-page", 1), ("snap", 1), ("repl", 1)])
+                sc(&[("crash2", 1), ("crash2-lag", 1), ("crash2-page", 1), ("crash2-async", 1), ("crash2-async-loose", 1), ("elect-stale", 0), ("fig8-div", 1), ("repl-div", 1), ("snap", 1), ("crash3", 1), ("repl", 1)])
             } else {
-                sc(&[("crash2", 1), ("crash3", 1), ("crash2-async", 1), ("crash3-lag", 1), ("crash3-page", 1), ("snap", 1), ("repl", 1), ("crash3-unp", 1), ("crash3-lazy", 1), ("crash2", 3), ("snap", 2), ("crash3-async", 1), ("crash3", 2)])
+                sc(&[("crash2", 1), ("crash2-lag", 1), ("crash2-page", 1), ("crash2-async", 1), ("crash2-async-loose", 1), ("elect-stale", 0), ("fig8-div", 1), ("repl-div", 1), ("snap", 1), ("crash3", 1), ("repl", 1), ("crash3-lag", 1), ("crash3-page", 1), ("crash3-unp", 1), ("crash3-lazy", 1), ("crash2", 3), ("snap", 2), ("crash3-async", 1), ("crash3", 2)])
             };
             p.required_stats = vec![Stat::ReadyChecked, Stat::EntriesApplied, Stat::HasReadyCloneChecks, Stat::Truncations];
             p.explanation = "explicit-state exploration of every legal RawNode call history (advance | advance_append | advance_append_async + on_persist_ready in any batching, apply lag, pagination, truncation, snapshot, restart); application-side cursor model of the entries / hard state / committed-entries hand-off; has_ready() compared with ready() on a clone in every state".into();
         }
         "C08" => {
             p.scenarios = if q {
-                sc(&[("read", 1), ("read", 2), ("read-cc", 1)])
+                sc(&[("read", 1), ("read-cc", 0), ("read", 2)])
             } else {
-                sc(&[("read", 1), ("read", 2), ("read-cc", 1), ("read", 3), ("read-cc", 2), ("read", 4)])
+                sc(&[("read", 1), ("read-cc", 0), ("read", 2), ("read", 3), ("read-cc", 1), ("read", 4), ("read", 5)])
             };
             p.required_stats = vec![Stat::ReadStates];
             p.explanation = "explicit-state exploration; ghost max commit index over all nodes recorded when a read is issued; every ReadState in any Ready must be returned at the issuer with index >= that value".into();
         }
         "C09" => {
             p.scenarios = if q {
-                sc(&[("member-joint", 1), ("member-rm1", 1), ("member", 1), ("member-joint", 2), ("member-eager", 1)])
+                sc(&[("member-joint", 1), ("member-rm1", 1), ("member", 1), ("member-eager", 1), ("member-mix", 0)])
             } else {
-                sc(&[("member-joint", 1), ("member-rm1", 1), ("member", 1), ("member-joint", 2), ("member-eager", 1), ("member", 2), ("member-rm1", 2), ("member", 3), ("member-async", 1)])
+                sc(&[("member-joint", 1), ("member-rm1", 1), ("member-mix", 1), ("member", 1), ("member-eager", 1), ("member-joint", 2), ("member", 2), ("member-rm1", 2), ("member", 3), ("member-async", 1), ("member-mix", 2)])
             };
             p.required_stats = vec![Stat::CcAccepted, Stat::CcNeutralised, Stat::ConfApplied, Stat::JointEntered];
             p.explanation = "explicit-state exploration of V1/V2 proposals at leader and follower with apply lag, elections, restarts; proposal filter relation on every accepted conf-change proposal; no election over an unapplied committed change; every node's configuration compared with the reference fold of the applied membership entries".into();
@@ -131,18 +131,18 @@ pub fn plan_for(prop: &str, tier: &str) -> Plan {
         }
         "C13" => {
             p.scenarios = if q {
-                sc(&[("flow", 0), ("repl-i1-sz", 1), ("repl", 1), ("repl-div", 1), ("flow", 1), ("repl-batch", 1)])
+                sc(&[("flow", 0), ("flow-cap", 0), ("repl-i1-sz", 1), ("repl", 1), ("repl-div", 1), ("repl-mix", 1), ("flow", 1), ("repl-batch", 1)])
             } else {
-                sc(&[("flow", 0), ("repl-i1-sz", 1), ("repl", 1), ("repl-div", 1), ("flow", 1), ("repl-batch", 1), ("flow-div", 1), ("flow-batch", 1), ("repl", 2), ("flow", 2), ("repl-batch", 2)])
+                sc(&[("flow", 0), ("flow-cap", 0), ("repl-i1-sz", 1), ("repl", 1), ("repl-div", 1), ("repl-mix", 1), ("flow", 1), ("repl-batch", 1), ("flow-div", 1), ("flow-batch", 1), ("flow-cap", 1), ("repl-mix", 3), ("repl", 2), ("flow", 2), ("repl-batch", 2)])
             };
             p.required_stats = vec![Stat::AppendsChecked, Stat::HeartbeatsChecked, Stat::WindowFull, Stat::ProbePaused, Stat::ProposalsAccepted, Stat::ProposalsRefused];
             p.explanation = "explicit-state exploration over all ack/reject/heartbeat-response orders incl. stale, duplicated and reordered ones and runtime window resizing; reference window model per (leader, follower) driven by generated and delivered messages; every generated MsgAppend / MsgHeartbeat checked for well-formedness against the leader's own log; ghost of uncommitted payload bytes".into();
         }
         "C15" => {
             p.scenarios = if q {
-                sc(&[("snap", 1), ("snap-joint", 1), ("snap", 2)])
+                sc(&[("snap", 1), ("snap-joint", 0), ("snap", 2)])
             } else {
-                sc(&[("snap", 1), ("snap-joint", 1), ("snap", 2), ("snap", 3), ("snap-joint", 2), ("snap", 4)])
+                sc(&[("snap", 1), ("snap-joint", 0), ("snap", 2), ("snap-joint", 1), ("snap", 3), ("snap-joint", 2), ("snap", 4)])
             };
             p.required_stats = vec![Stat::SnapshotsInstalled, Stat::SnapshotsSent];
             p.explanation = "explicit-state exploration over compaction points, lost/duplicated/stale/reordered MsgSnapshot, status reports, follower crash around the install; install / ignore / fast-forward post-conditions and the leader's send condition as pre/post relations".into();
@@ -159,19 +159,18 @@ pub fn plan_for(prop: &str, tier: &str) -> Plan {
         }
         "C17" => {
             p.scenarios = if q {
-                sc(&[("xfer", 0), ("xfer-lag", 0), ("xfer", 1)])
+                sc(&[("xfer", 0), ("xfer-lag", 0), ("xfer-abort", 0), ("xfer", 1)])
             } else {
-                sc(&[("xfer", 0), ("xfer-lag", 0), ("xfer", 1), ("xfer-pvcq", 1), ("xfer-lag", 1), ("xfer", 2), ("xfer", 3)])
+                sc(&[("xfer", 0), ("xfer-lag", 0), ("xfer-abort", 0), ("xfer", 1), ("xfer-abort", 1), ("xfer-pvcq", 1), ("xfer-lag", 1), ("xfer-abort", 2), ("xfer", 2), ("xfer", 3)])
             };
             p.required_stats = vec![Stat::TransfersStarted, Stat::TimeoutNowSent, Stat::ProposalsRefused];
             p.explanation = "explicit-state exploration over all targets (voters, learner, unknown id, the leader itself), repeated and competing requests at leader and follower, lagging target, message loss; MsgTimeoutNow only to a caught-up target, proposals refused while pending, abort within election_tick leader ticks or when the target leaves the voters, bad targets are no-ops".into();
         }
         "C20" => {
             p.scenarios = if q {
-                sc(&[("elect", 1), ("fig8-div", 1), ("crash2", 1), ("crash2-async", 1), ("member-rm1", 1), ("member-joint", 1), ("lease", 1), ("snap", 0), ("read", 1), ("stale", 0), ("stale-lazy", 0), ("stale-async", 0), ("repl-i1-sz", 1), ("xfer", 0), ("flow", 0), ("member", 0)])
+                sc(&[("elect", 1), ("fig8-div", 1), ("crash2", 1), ("crash2-async", 1), ("crash2-async-loose", 1), ("member-rm1", 1), ("member-joint", 1), ("lease", 1), ("snap", 0), ("read", 1), ("stale", 0), ("stale-lazy", 0), ("stale-async", 0), ("repl-i1-sz", 1), ("repl-mix", 0), ("xfer", 0), ("xfer-abort", 0), ("flow", 0), ("flow-cap", 0), ("member", 0)])
             } else {
-                sc(&[("elect", 1), ("fig8-div", 1), ("crash2", 1), ("crash2-async", 1), ("member-rm1", 1), ("member-joint", 1), ("lease", 1), ("snap", 0), ("read", 1), ("stale", 0), ("stale-lazy", 0), ("stale-async", 0), ("repl-i1-sz", 1), ("xfer", 0), ("flow", 0), ("member", 0),
-                     ("member-rm1-lazy", 1), ("member-rm1-async", 1), ("crash3", 1), ("repl-batch", 1), ("snap", 1), ("stale-lazy", 1), ("stale-async", 1), ("member", 1), ("crash3-lazy", 1), ("crash3-async", 1), ("fig8", 1), ("xfer", 1), ("flow", 1)])
+                sc(&[("elect", 1), ("fig8-div", 1), ("crash2", 1), ("crash2-async", 1), ("crash2-async-loose", 1), ("member-rm1", 1), ("member-joint", 1), ("lease", 1), ("snap", 0), ("read", 1), ("stale", 0), ("stale-lazy", 0), ("stale-async", 0), ("repl-i1-sz", 1), ("repl-mix", 0), ("xfer", 0), ("xfer-abort", 0), ("flow", 0), ("flow-cap", 0), ("member", 0), ("member-rm1-lazy", 1), ("member-rm1-async", 1), ("member-mix", 1), ("crash3", 1), ("repl-batch", 1), ("snap", 1), ("stale-lazy", 1), ("stale-async", 1), ("member", 1), ("crash3-lazy", 1), ("crash2-async-loose", 2), ("crash3-async", 1), ("fig8", 1), ("xfer", 1), ("flow", 1)])
             };
             p.required_stats = vec![Stat::BadMsgOffered, Stat::ReadyChecked, Stat::MsgsReleased];
             p.explanation = "every API call of every explored execution runs under catch_unwind: a panic, failed assert!/debug_assert!, fatal!, index out of bounds or arithmetic overflow (debug-assertions and overflow-checks are on) is a violation; in every state local-only message types and responses from non-members are offered to step() on a clone and must be rejected with the documented error without changing the state digest".into();
